@@ -454,10 +454,7 @@ pub trait OperationTransformer<'a, T: Text<'a> + Clone> {
         &mut self,
         variable_definitions: &[VariableDefinition<'a, T>],
     ) -> TransformedValue<Vec<VariableDefinition<'a, T>>> {
-        self.transform_list(
-            variable_definitions,
-            Self::default_transform_variable_definition,
-        )
+        self.transform_list(variable_definitions, Self::transform_variable_definition)
     }
 
     fn transform_variable_definition(
